@@ -276,6 +276,16 @@ def rule_gsd(ctx, tu):
             ("" if p_ else "!") + "(" + t + ")" for t, p_ in strip_facts(fc)))[:120], "counts one real unit update of the drawn state",
                   "the correction counter advances on a path where no molecule is removed / added (its conditions differ from "
                   "those of every +-1 update): the loop ends early and the t = 0 total is not floor(real total)")
+    # the cell that gives / receives a molecule is drawn with probability proportional to its real amount: first cell whose
+    # running sum *exceeds* the uniform target.  With `<=` a cell whose running sum merely equals the target -- in particular a
+    # leading cell holding nothing, target 0 -- is selected: a zero entry receives molecules, or an empty cell is picked forever
+    for s2, ch in unit:
+        sel = [(t, b) for t, b in ch if "target" in t or "cumul" in t]
+        okk = any(b and t.replace(" ", "").strip("()") in ("target<cumul", "cumul>target") for t, b in sel)
+        ctx.check(okk, R, s2.node, f.qual, text(s2.node)[:50] + " selected by " + "; ".join(t for t, _ in sel)[:60],
+                  "first cell whose running sum exceeds the target (strict)", "the cell is selected under `%s`, not under the strict "
+                  "`target < cumul`: a cell with nothing of the species can be selected (zero does not stay zero; the correction "
+                  "loop can spin on an empty cell)" % "; ".join(t for t, _ in sel)[:80], nontrivial=False)
     cfacts_ = [strip_facts(fc) for _, fc in cnt]
     for s2, fc in unit:
         ctx.check(strip_facts(fc) in cfacts_, R, s2.node, f.qual, text(s2.node)[:60] + " is counted", "each unit update advances "
